@@ -92,6 +92,7 @@ LOCATED_ERRORS = [
     "class A {\n#[static]\nfn s(\nself) {}\n}\n", "for\n1 in x {}\n", "for x\nof y {}\n", "for x in x\n{}\n", "{ var x = 1; for x in\nx {} }\n", "try {\n}\nprint(1);\n",
     "try {\n} catch\n{\n}\n", "try {\n} catch e\nprint(e);\n", "try {\n} finally\nprint(1);\n", "if x {\n} else\nprint(1);\n", "a.b\n.1;\n", "x[1\n;\n", "f(1,\n2;\n",
     "var m = {1:\n2,\n3};\n", "(1,\n2;\n", "(1\n;\n", "1 +\n= 2;\n", "a + b\n= 2;\n", "a.b = c\n= ;\n", "x +=\ny += 1;\n", "x += |a| {\nb\n+= 1; };\n",
+    "import \"\" as\nodd;\nprint(1);\n", "import \"/\" as odd;\n", "import \"..\" as odd;\n", "import\n\"\"\n;\n", "import \"..\"\n;\n", "{ import \"/\"; }\n",
     "var s = \"a${\n}b\";\n", "var s = \"a${1\n2}b\";\n", "print(\"${1}\"\n\"x\");\n", "var x = 1\n@ 2;\n", "var x =\n$;\n",
 ]
 
